@@ -983,6 +983,10 @@ func (f *fsm) established() (fsmState, error) {
 	}
 
 	to, err := established()
+	// wait for the keepAlive timer manager to exit before this FSM moves on:
+	// it reads holdTime/keepAliveTimer/keepAliveInterval, which the next
+	// connection's OPEN handling overwrites.
+	<-kaManagerDoneCh
 	f.cleanupConnAndReader()
 	f.holdTimer.Stop()
 	f.keepAliveTimer.Stop()
